@@ -551,14 +551,27 @@ fn judge(case: &ConcCase, out: &ConcOut, stats: &mut Stats) -> Vec<Violation> {
                 detail: format!("{:?}", br.iter().take(5).collect::<Vec<_>>()),
             });
         }
-        if v.is_empty() && case.linearizable {
+        if v.is_empty() {
             let total: usize = case.threads.iter().map(|t| t.len()).sum();
-            if out.records.len() == total {
+            let skipped = out.records.iter().filter(|r| r.out == Outcome::Skip).count();
+            if out.records.len() == total && (case.linearizable || skipped == 0) {
                 // append conservation (the headline special case, cheap and independent)
                 let t = tree::tree_of(snap);
                 for r in &out.records {
-                    if let (Op::AppendAll { d, .. }, true) = (&case.threads[r.tid][r.idx], r.out.is_ok()) {
-                        let only_appends = case.threads.iter().flatten().all(|o| matches!(o, Op::AppendAll { .. } | Op::ReadAll { .. } | Op::Exists { .. }));
+                    if let (Op::AppendAll { d, .. } | Op::HWrite { d, .. }, true) = (&case.threads[r.tid][r.idx], r.out.is_ok()) {
+                        let only_appends = case.threads.iter().flatten().all(|o| {
+                            matches!(
+                                o,
+                                Op::AppendAll { .. }
+                                    | Op::ReadAll { .. }
+                                    | Op::Exists { .. }
+                                    | Op::OpenAppend { .. }
+                                    | Op::HWrite { .. }
+                                    | Op::HFlush { .. }
+                                    | Op::HDrop { .. }
+                                    | Op::HDropUnwind { .. }
+                            )
+                        });
                         if only_appends && !d.0.is_empty() {
                             let total_hits: usize = t
                                 .nodes
@@ -579,6 +592,9 @@ fn judge(case: &ConcCase, out: &ConcOut, stats: &mut Stats) -> Vec<Violation> {
                             }
                         }
                     }
+                }
+                if !case.linearizable {
+                    return v;
                 }
                 let mut budget = 6000u64;
                 match linearizable(case, &out.records, snap, &mut budget) {
@@ -689,17 +705,67 @@ fn generate(seed: u64, idx: u64, rng: &mut Rng) -> ConcCase {
         m.after(&op, &out, &pre);
         setup.push(op);
     }
+    let family = rng.weighted(&[70, 15, 15]);
+    let mut linz = linz;
     let nthreads = if linz { rng.range(2, 3) } else { rng.range(2, 4) };
     let mut threads = vec![];
-    for _ in 0..nthreads {
-        let nops = if linz { rng.range(1, 3) } else { rng.range(1, 6) };
-        let mut ops = vec![];
-        for _ in 0..nops {
-            let op = gen.next_op(&m, rng);
-            // inputs that hang or blow up sequentially say nothing about schedules
-            ops.push(op);
-        }
-        threads.push(ops);
+    match family {
+        0 => {
+            for _ in 0..nthreads {
+                let nops = if linz { rng.range(1, 3) } else { rng.range(1, 6) };
+                let mut ops = vec![];
+                for _ in 0..nops {
+                    ops.push(gen.next_op(&m, rng));
+                }
+                threads.push(ops);
+            }
+        },
+        1 => {
+            // append storm: the statement's headline case, all threads append to one or two files
+            linz = true;
+            let files = [format!("/{}", gen.names[0]), format!("/{}", gen.names[1 % gen.names.len()])];
+            for _ in 0..rng.range(2, 3) {
+                let mut ops = vec![];
+                for _ in 0..rng.range(1, 3) {
+                    let nf = if rng.chance(1, 3) { 2 } else { 1 };
+                    let f = files[rng.below(nf)].clone();
+                    if rng.chance(1, 6) {
+                        ops.push(Op::ReadAll { p: f });
+                    } else {
+                        gen.step += 1;
+                        let mut d = gen.data(rng);
+                        if d.0.is_empty() {
+                            d = Bytes(format!("<e{}.{}>", idx, gen.step).into_bytes());
+                        }
+                        ops.push(Op::AppendAll { p: f, d });
+                    }
+                }
+                threads.push(ops);
+            }
+        },
+        _ => {
+            // append handles of several threads on one file, interleaved with append_all
+            linz = false;
+            let f = format!("/{}", gen.names[0]);
+            for _ in 0..rng.range(2, 3) {
+                let mut ops = vec![Op::OpenAppend { h: 0, p: f.clone() }];
+                for _ in 0..rng.range(1, 3) {
+                    gen.step += 1;
+                    let d = Bytes(format!("<h{}.{}>", idx, gen.step).into_bytes());
+                    match rng.below(4) {
+                        0 => ops.push(Op::AppendAll { p: f.clone(), d }),
+                        _ => ops.push(Op::HWrite { h: 0, d }),
+                    }
+                    if rng.chance(1, 3) {
+                        ops.push(Op::HFlush { h: 0 });
+                    }
+                }
+                if rng.chance(2, 3) {
+                    ops.push(if rng.chance(1, 5) { Op::HDropUnwind { h: 0 } } else { Op::HDrop { h: 0 } });
+                }
+                threads.push(ops);
+            }
+        },
     }
     ConcCase {
         format: 1,
